@@ -52,6 +52,15 @@ struct Stage0 {
     std::unique_ptr<Hamiltonian> H;
     int model;
 
+    // with complex matrix elements the hoppings carry a phase (exercises the complex code paths, incl. the raw broadcast of complex blocks)
+    static MelemType hop(double t, double phase) {
+#ifdef POMEROL_COMPLEX_MATRIX_ELEMENTS
+        return MelemType(t * std::cos(phase), t * std::sin(phase));
+#else
+        (void)phase; return t;
+#endif
+    }
+
     Stage0(int model_, long mp, bool nosym) : model(model_ % N_MODELS) {
         Params p = params(model, mp);
         switch (model) {
@@ -64,7 +73,7 @@ struct Stage0 {
                 L.addSite(new Lattice::Site("A", 1, 2)); L.addSite(new Lattice::Site("B", 1, 2));
                 LatticePresets::addCoulombS(&L, "A", p.U[0], p.eps[0]);
                 LatticePresets::addCoulombS(&L, "B", p.U[1], p.eps[1]);
-                if (model != ATOMS2) LatticePresets::addHopping(&L, "A", "B", p.t[0]);
+                if (model != ATOMS2) LatticePresets::addHopping(&L, "A", "B", hop(p.t[0], p.h));
                 if (model == DIMER_FIELD) LatticePresets::addMagnetization(&L, "A", p.h);
                 break;
             case KANAMORI:
@@ -76,8 +85,8 @@ struct Stage0 {
                 LatticePresets::addCoulombS(&L, "A", p.U[0], p.eps[0]);
                 LatticePresets::addCoulombS(&L, "B", p.U[1], p.eps[1]);
                 LatticePresets::addCoulombS(&L, "C", p.U[2], p.eps[2]);
-                LatticePresets::addHopping(&L, "A", "B", p.t[0]);
-                LatticePresets::addHopping(&L, "B", "C", p.t[1]);
+                LatticePresets::addHopping(&L, "A", "B", hop(p.t[0], p.h));
+                LatticePresets::addHopping(&L, "B", "C", hop(p.t[1], p.J));
                 break;
         }
         IndexInfo.reset(new IndexClassification(L.getSiteMap()));
@@ -117,14 +126,23 @@ inline std::string rand_quad(hc::Rng& r, int nm) {
 }
 
 typedef boost::tuple<ComplexType, ComplexType, ComplexType> FreqTuple;
+// "n1:n2:n3,..." explicit Matsubara triples, or "grid:N[:d]" = N triples enumerated deterministically, each repeated d times in a row
+// (large and boundary-sized tables, adjacent duplicates)
 inline std::vector<FreqTuple> freqs_from(const std::string& s, double beta) {
     std::vector<FreqTuple> out;
+    double w = M_PI / beta;
+    auto mk = [&](long n1, long n2, long n3) { return boost::make_tuple(ComplexType(0, w * (2 * n1 + 1)), ComplexType(0, w * (2 * n2 + 1)), ComplexType(0, w * (2 * n3 + 1))); };
+    if (s.compare(0, 5, "grid:") == 0) {
+        std::vector<std::string> p = hc::split(s, ':');
+        long N = p.size() > 1 ? std::max(0L, std::min(20000L, atol(p[1].c_str()))) : 0, d = p.size() > 2 ? std::max(1L, atol(p[2].c_str())) : 1;
+        for (long i = 0; i < N; i++) { long j = i / d; out.push_back(mk(j % 7 - 3, (j / 7) % 7 - 3, (j / 49) % 5 - 2)); }
+        return out;
+    }
     for (auto& t : hc::split(s, ',')) {
         if (t.empty()) continue;
         std::vector<std::string> p = hc::split(t, ':');
         if (p.size() != 3) continue;
-        double w = M_PI / beta;
-        out.push_back(boost::make_tuple(ComplexType(0, w * (2 * atoi(p[0].c_str()) + 1)), ComplexType(0, w * (2 * atoi(p[1].c_str()) + 1)), ComplexType(0, w * (2 * atoi(p[2].c_str()) + 1))));
+        out.push_back(mk(atoi(p[0].c_str()), atoi(p[1].c_str()), atoi(p[2].c_str())));
     }
     return out;
 }
@@ -134,10 +152,18 @@ inline std::string rand_freqs(hc::Rng& r, int n) {
         int n1 = r.range(-3, 3), n2 = r.range(-3, 3), n3 = r.range(-3, 3);
         int style = r.below(8);
         if (style == 0) n3 = n1; else if (style == 1) n3 = n2; else if (style == 2) n2 = -1 - n1;
+        std::string t = std::to_string(n1) + ":" + std::to_string(n2) + ":" + std::to_string(n3);
+        if (i && r.pct(15)) { size_t c = s.rfind(','); t = c == std::string::npos ? s : s.substr(c + 1); }  // the same triple twice in a row
         if (i) s += ',';
-        s += std::to_string(n1) + ":" + std::to_string(n2) + ":" + std::to_string(n3);
+        s += t;
     }
     return s;
+}
+// boundary-sized tables: powers of two and their neighbours, sizes around typical chunking constants
+inline std::string rand_grid_freqs(hc::Rng& r, int max_n) {
+    static const int sizes[] = {7, 8, 9, 15, 16, 17, 31, 32, 33, 63, 64, 65, 100, 127, 128, 129, 255, 256, 257, 511, 512, 513, 1000, 1023, 1024, 1025, 2048, 4095, 4096, 4097, 8192};
+    std::vector<int> ok; for (int v : sizes) if (v <= max_n) ok.push_back(v);
+    return "grid:" + std::to_string(r.pick(ok)) + (r.pct(30) ? ":2" : "");
 }
 
 } // namespace models
